@@ -280,22 +280,31 @@ class AsyncFIXConnection:
             )
 
         num_out = self._session.next_num_out
-        encoded_msg = self._codec.encode(msg, self._session).encode("utf-8")
-        # retransmissions (PossDupFlag) and SequenceReset keep their own MsgSeqNum
-        is_new_num = self._session.next_num_out != num_out
+        try:
+            encoded_msg = self._codec.encode(msg, self._session).encode("utf-8")
+            # retransmissions (PossDupFlag) and SequenceReset keep their own MsgSeqNum
+            is_new_num = self._session.next_num_out != num_out
 
-        msg_raw = encoded_msg.replace(b"\x01", b"|")
-        self.log.debug(
-            f"[{self._connection_role.name}]:send_msg ({self._connection_state.name})"
-            f" {repr(msg.msg_type)}\n\t {msg_raw.decode()}\n"
-        )
-
-        if is_new_num:
-            # the journal keeps what was sent first under each number; journaled
-            #  before it is handed to the socket, a number on the wire is never lost
-            self._journaler.persist_msg(
-                encoded_msg, self._session, MessageDirection.OUTBOUND
+            msg_raw = encoded_msg.replace(b"\x01", b"|")
+            self.log.debug(
+                f"[{self._connection_role.name}]:send_msg"
+                f" ({self._connection_state.name})"
+                f" {repr(msg.msg_type)}\n\t {msg_raw.decode()}\n"
             )
+
+            if is_new_num:
+                # the journal keeps what was sent first under each number; journaled
+                #  before it is handed to the socket, a number on the wire is never
+                #  lost
+                self._journaler.persist_msg(
+                    encoded_msg, self._session, MessageDirection.OUTBOUND
+                )
+        except Exception:
+            # nothing has been handed to the socket (and there was no await since the
+            #  number was taken): a message that cannot be written as bytes or that
+            #  the journal refuses does not take a MsgSeqNum
+            self._session.next_num_out = num_out
+            raise
 
         self._socket_writer.write(encoded_msg)
         await self._socket_writer.drain()
